@@ -131,6 +131,9 @@ pub struct World {
     pub allow_faucet_liq: bool,
     /// deposits prefer equal / perfect-square amounts and repeat the previous deposit's pool
     pub twin_deposits: bool,
+    /// when set, pool requests name this pool whether or not the rules list it yet (a user-created
+    /// pool under the name of a built-in one that is not enabled yet)
+    pub force_pool: Option<PoolKey>,
     pub last_deposit: Option<(PoolKey, u128, u128)>,
     pub dead: bool,
     pub origin: String,
@@ -185,6 +188,7 @@ impl World {
             profile: Profile::default(),
             allow_faucet_liq: false,
             twin_deposits: false,
+            force_pool: None,
             last_deposit: None,
             dead: false,
             origin,
@@ -829,6 +833,9 @@ impl World {
             v.push(PoolKey::new(Denom::Erg, Denom::Sym));
         }
         v.extend(self.my_pools.iter().copied());
+        if let Some(k) = self.force_pool {
+            return vec![k];
+        }
         v
     }
 
@@ -875,6 +882,9 @@ impl World {
             }
         }
         let mut key = *self.rng.pick(&cands);
+        if let Some(k) = self.force_pool {
+            key = k;
+        }
         if self.twin_deposits && self.rng.chance(2, 3) {
             if let Some((k, _, _)) = self.last_deposit {
                 key = k;
@@ -1628,6 +1638,48 @@ pub trait Monitor {
 }
 
 /// Runs one history of `blocks` blocks with 0-3 batches each.
+/// A user-created pool under the name of a built-in pool that the rules have not enabled yet (ERG/SYM on
+/// testnet below height 500 / mainnet below TIP-902): the world must stand a few blocks below the activation.
+/// Block 1 deposits into it; the whole liquidity is withdrawn again in block `withdraw_in` (if any); swaps
+/// against it in between; the history then continues normally across the activation for `tail` blocks.
+pub fn squat_history(w: &mut World, withdraw_in: Option<usize>, scripted: usize, tail: usize, mons: &mut [&mut dyn Monitor]) {
+    let key = PoolKey::new(Denom::Erg, Denom::Sym);
+    let saved = w.profile.clone();
+    w.profile.odd_spelling_permille = 0;
+    w.profile.wrong_kind_permille = 0;
+    for b in 0..scripted {
+        if w.dead {
+            return;
+        }
+        w.force_pool = Some(key);
+        let req = if b == 0 {
+            w.gen_deposit()
+        } else if Some(b) == withdraw_in {
+            w.gen_withdraw()
+        } else if w.rng.chance(1, 2) {
+            w.gen_swap()
+        } else {
+            None
+        };
+        w.force_pool = None;
+        if let Some((tx, label)) = req {
+            let ev = w.apply_batch(vec![tx], vec![format!("squat:{}", label)]);
+            for m in mons.iter_mut() {
+                m.on_batch(w, &ev);
+            }
+        }
+        if w.dead {
+            return;
+        }
+        let ev = w.seal_next(None);
+        for m in mons.iter_mut() {
+            m.on_seal(w, &ev);
+        }
+    }
+    w.profile = saved;
+    run_history(w, tail, mons);
+}
+
 pub fn run_history(w: &mut World, blocks: usize, mons: &mut [&mut dyn Monitor]) {
     for _ in 0..blocks {
         if w.dead {
